@@ -122,21 +122,28 @@ def fixZeroSpans (rows : List RNode) : List RNode :=
     | .row st cells => if hasZero then .row st (cells.map fun c => if cellSpan c = 0 then setSpan (maxCols - n + 1) c else c) else r
     | r => r
 
-/-- RenderTable::new: remap column positions to ranks -/
+/-- every column boundary any cell of the table ends at -/
+def colPositions (rows : List RNode) : List Nat :=
+  rows.flatMap fun r =>
+    ((rowCells r).foldl (fun (acc : Nat × List Nat) c => (acc.1 + cellSpan c, acc.2 ++ [acc.1 + cellSpan c])) (0, [])).2
+
+/-- rank of a column boundary among all boundaries of the table -/
+def remapRank (rows : List RNode) (p : Nat) : Nat :=
+  (((0 :: colPositions rows).eraseDups.mergeSort (· ≤ ·)).findIdx? (· = p)).getD 0     -- unwrap() in Rust
+
+/-- the cells of one row with their spans re-expressed in ranks -/
+def remapCells (rank : Nat → Nat) (cells : List RNode) : List RNode :=
+  (cells.foldl (fun (acc : Nat × Nat × List RNode) c =>
+    (acc.1 + max (cellSpan c) 1, rank (acc.1 + max (cellSpan c) 1),
+     acc.2.2 ++ [setSpan (rank (acc.1 + max (cellSpan c) 1) - acc.2.1) c])) (0, 0, [])).2.2
+
+def remapRow (rank : Nat → Nat) : RNode → RNode
+  | .row st cells => .row st (remapCells rank cells)
+  | r => r
+
+/-- RenderTable::new: remap column positions to ranks; the table gets as many columns as its widest row -/
 def remapTable (rows : List RNode) : List RNode × Nat :=
-  let positions : List Nat := (rows.flatMap fun r =>
-      ((rowCells r).foldl (fun (acc : Nat × List Nat) c => (acc.1 + cellSpan c, acc.2 ++ [acc.1 + cellSpan c])) (0, [])).2)
-  let sorted := (0 :: positions).eraseDups.mergeSort (· ≤ ·)
-  let rank (p : Nat) : Nat := (sorted.findIdx? (· = p)).getD 0     -- unwrap() in Rust
-  let rows' := rows.map fun r =>
-    match r with
-    | .row st cells =>
-      .row st ((cells.foldl (fun (acc : Nat × Nat × List RNode) c =>
-        let (pos, mapped, out) := acc
-        let nextpos := pos + max (cellSpan c) 1
-        let nm := rank nextpos
-        (nextpos, nm, out ++ [setSpan (nm - mapped) c])) (0, 0, [])).2.2)
-    | r => r
+  let rows' := rows.map (remapRow (remapRank rows))
   let ncols := (rows'.map fun r => ((rowCells r).map (fun c => max (cellSpan c) 1)).sum).foldl max 0
   (rows', ncols)
 
@@ -164,6 +171,85 @@ structure BuildCfg where
 
 def isElemNode : Node → Bool | .elem .. => true | _ => false
 
+/-- the render node an element becomes, given its already built children (`None`: the element is dropped) -/
+def elemBase (computed : Css.Computed) (html : Bool) (name : String) (attrs : List (String × List Ch)) (cs : List RNode) : Option RNode :=
+  let st := styleOf computed
+  let noempty (r : RNode) : Option RNode := if cs.isEmpty then none else some r
+  if !html then noempty (.box st .container cs) else
+  match name with
+  | "html" | "body" => some (.box st .container cs)
+  | "link" | "meta" | "hr" | "script" | "style" | "head" => none
+  | "span" => noempty (.box st .container cs)
+  | "a" =>
+    match attr attrs "href" with
+    | some href => if cs.any (fun c => !c.shallowEmpty) then some (.box st (.link href) cs) else none
+    | none => some (.box st .container cs)
+  | "em" | "i" | "ins" => some (.box st .em cs)
+  | "strong" => some (.box st .strong cs)
+  | "s" | "del" => some (.box st .strike cs)
+  | "code" => some (.box st .code cs)
+  | "img" =>
+    match (attrs.filter (fun a => a.1 = "alt" && !a.2.isEmpty)).getLast?, (attrs.filter (fun a => a.1 = "src" && !a.2.isEmpty)).getLast? with
+    | some t, some s => some (.img st s.2 t.2)
+    | _, _ => none
+  | "h1" => some (.box st (.header 1) cs) | "h2" => some (.box st (.header 2) cs)
+  | "h3" => some (.box st (.header 3) cs) | "h4" => some (.box st (.header 4) cs)
+  | "h5" => some (.box st (.header 5) cs) | "h6" => some (.box st (.header 6) cs)
+  | "p" => noempty (.box st .block cs)
+  | "li" => some (.box st .li cs)
+  | "sup" => some (.box st .sup cs)
+  | "div" => noempty (.box st .div cs)
+  | "pre" =>
+    let ws' := computed.main.ws.maybeUpdate false .agent {} .pre
+    some (.box { st with ws := ws'.val.map wsOfCss, pre := true } .block cs)
+  | "br" => some (.br st)
+  | "blockquote" => noempty (.box st .quote cs)
+  | "ul" => noempty (.box st .ul cs)
+  | "ol" =>
+    let start : Int := match attr attrs "start" with
+      | some v => (parseI64 v).getD 1
+      | none => 1
+    noempty (.box st (.ol start) (cs.filter isLi))
+  | "dl" => noempty (.box st .dl (cs.filter isDtDd))
+  | "td" | "th" =>
+    let colspan := match (attrs.filter (fun a => a.1 = "colspan")).getLast? with
+      | some a => min ((parseUsize a.2).getD 1) 1000
+      | none => 1
+    some (.cell st colspan cs)
+  | "tr" => some (.row st (cs.filter isCell))
+  | "thead" | "tbody" => noempty (.tbody st (fixZeroSpans (cs.filter isRow)))
+  | "table" =>
+    let rows := cs.flatMap tbodyRows
+    if rows.isEmpty then none else
+    let (rows', n) := remapTable rows
+    some (.table st rows' n)
+  | "dt" => some (.box st .dt cs)
+  | "dd" => some (.box st .dd cs)
+  | _ => noempty (.box st .container cs)
+
+/-- `::before` / `::after` content is inserted as text children -/
+def elemWrap (ci : CharInfo) (computed : Css.Computed) (base : Option RNode) : Option RNode :=
+  if computed.before.isSome || computed.after.isSome then
+    base.map fun n =>
+      let n1 := match computed.before.bind (·.content.val) with
+        | some t => insertChild (.text {} (contentChars ci t)) n true
+        | none => n
+      match computed.after.bind (·.content.val) with
+      | some t => insertChild (.text {} (contentChars ci t)) n1 false
+      | none => n1
+  else base
+
+/-- an `id` (or `<a name>`) becomes a fragment marker in front of the element's content -/
+def elemFrag (html : Bool) (name : String) (attrs : List (String × List Ch)) (wrapped : Option RNode) : Option RNode :=
+  let fragName : Option (List Ch) :=
+    match attrs.find? (fun a => a.1 = "id" || (html && name = "a" && a.1 = "name")) with
+    | some a => some a.2
+    | none => none
+  match fragName, wrapped with
+  | none, r => r
+  | some f, none => some (.frag f)
+  | some f, some n => some (insertChild (.frag f) n true)
+
 mutual
 /-- process_dom_node; outer `none` = a panic inside computed_style -/
 def build (bc : BuildCfg) (up : List Css.Frame) (idx : Nat) : Node → Option (Option RNode)
@@ -183,79 +269,7 @@ def build (bc : BuildCfg) (up : List Css.Frame) (idx : Nat) : Node → Option (O
     if computed.main.displayNone.val.isSome then some none else
     match buildList bc chain 0 kids with
     | none => none
-    | some cs =>
-    let st := styleOf computed
-    let noempty (r : RNode) : Option RNode := if cs.isEmpty then none else some r
-    let base : Option RNode :=
-      if !html then noempty (.box st .container cs) else
-      match name with
-      | "html" | "body" => some (.box st .container cs)
-      | "link" | "meta" | "hr" | "script" | "style" | "head" => none
-      | "span" => noempty (.box st .container cs)
-      | "a" =>
-        match attr attrs "href" with
-        | some href => if cs.any (fun c => !c.shallowEmpty) then some (.box st (.link href) cs) else none
-        | none => some (.box st .container cs)
-      | "em" | "i" | "ins" => some (.box st .em cs)
-      | "strong" => some (.box st .strong cs)
-      | "s" | "del" => some (.box st .strike cs)
-      | "code" => some (.box st .code cs)
-      | "img" =>
-        match (attrs.filter (fun a => a.1 = "alt" && !a.2.isEmpty)).getLast?, (attrs.filter (fun a => a.1 = "src" && !a.2.isEmpty)).getLast? with
-        | some t, some s => some (.img st s.2 t.2)
-        | _, _ => none
-      | "h1" => some (.box st (.header 1) cs) | "h2" => some (.box st (.header 2) cs)
-      | "h3" => some (.box st (.header 3) cs) | "h4" => some (.box st (.header 4) cs)
-      | "h5" => some (.box st (.header 5) cs) | "h6" => some (.box st (.header 6) cs)
-      | "p" => noempty (.box st .block cs)
-      | "li" => some (.box st .li cs)
-      | "sup" => some (.box st .sup cs)
-      | "div" => noempty (.box st .div cs)
-      | "pre" =>
-        let ws' := computed.main.ws.maybeUpdate false .agent {} .pre
-        some (.box { st with ws := ws'.val.map wsOfCss, pre := true } .block cs)
-      | "br" => some (.br st)
-      | "blockquote" => noempty (.box st .quote cs)
-      | "ul" => noempty (.box st .ul cs)
-      | "ol" =>
-        let start : Int := match attr attrs "start" with
-          | some v => (parseI64 v).getD 1
-          | none => 1
-        noempty (.box st (.ol start) (cs.filter isLi))
-      | "dl" => noempty (.box st .dl (cs.filter isDtDd))
-      | "td" | "th" =>
-        let colspan := match (attrs.filter (fun a => a.1 = "colspan")).getLast? with
-          | some a => min ((parseUsize a.2).getD 1) 1000
-          | none => 1
-        some (.cell st colspan cs)
-      | "tr" => some (.row st (cs.filter isCell))
-      | "thead" | "tbody" => noempty (.tbody st (fixZeroSpans (cs.filter isRow)))
-      | "table" =>
-        let rows := cs.flatMap tbodyRows
-        if rows.isEmpty then none else
-        let (rows', n) := remapTable rows
-        some (.table st rows' n)
-      | "dt" => some (.box st .dt cs)
-      | "dd" => some (.box st .dd cs)
-      | _ => noempty (.box st .container cs)
-    let wrapped : Option RNode :=
-      if computed.before.isSome || computed.after.isSome then
-        base.map fun n =>
-          let n1 := match computed.before.bind (·.content.val) with
-            | some t => insertChild (.text {} (contentChars bc.ci t)) n true
-            | none => n
-          match computed.after.bind (·.content.val) with
-          | some t => insertChild (.text {} (contentChars bc.ci t)) n1 false
-          | none => n1
-      else base
-    let fragName : Option (List Ch) :=
-      match attrs.find? (fun a => a.1 = "id" || (html && name = "a" && a.1 = "name")) with
-      | some a => some a.2
-      | none => none
-    match fragName, wrapped with
-    | none, r => some r
-    | some f, none => some (some (.frag f))
-    | some f, some n => some (some (insertChild (.frag f) n true))
+    | some cs => some (elemFrag html name attrs (elemWrap bc.ci computed (elemBase computed html name attrs cs)))
 def buildList (bc : BuildCfg) (chain : List Css.Frame) (seen : Nat) : List Node → Option (List RNode)
   | [] => some []
   | n :: ns =>
